@@ -10,7 +10,7 @@
 //   - '...'  : everything up to the next ' is literal (cannot contain ');
 //   - a bare word stands for itself (used here only for non-empty arguments without white
 //     space, quote characters and backslashes - the documented examples);
-//   - "" and '' are empty arguments; an unterminated quote is an error.
+//   - "" and ” are empty arguments; an unterminated quote is an error.
 //
 // Laws (all follow from "quoted in the documented way => split back into exactly the original
 // list; malformed input is reported instead of being silently altered"):
@@ -29,6 +29,7 @@ import (
 	"fmt"
 	"math/rand"
 	"reflect"
+	"runtime/debug"
 	"sort"
 	"strings"
 	"sync"
@@ -189,6 +190,11 @@ func c17spShards(total, shards int, salt int64, fn func(r *rand.Rand, n int)) {
 func TestVerifC17Shellparse(t *testing.T) {
 	rep := vNewReport("shellparse.Parse: argument lists (0-5 args, 0-6 symbols each) over {space, tab, newline, NBSP, U+3000, \", ', \\, -, $, (, ), {, }, =, /, ASCII letters, 2/3/4-byte runes, empty string}, each argument quoted by a quoter written from the documented grammar (double quotes with \\\" and \\\\ only; single quotes when the argument has no '; bare word when non-empty and free of white space, quotes and backslashes), parts separated by any Unicode white space: L1 split(quote(args))==args; L2 stable under re-quoting with other styles; L3 every prefix ending inside a quoted part (incl. dangling escape) is an error; L4 arbitrary strings: no panic, accepted input re-quotes to the same list, quote- and backslash-free input splits like FieldsFunc(IsSpace). distinct = distinct (style, character-class set) sequences")
 	defer rep.Write()
+	defer func() { // a panic of the code under test outside a guarded call is an observation, not a broken check
+		if p := recover(); p != nil {
+			rep.Fail("shellparse:panic", "monitor", fmt.Sprintf("panic escaped the monitor: %v\n%s", p, debug.Stack()), nil)
+		}
+	}()
 
 	// fixed cases first (one per clause of the grammar)
 	fixed := []struct {
@@ -196,15 +202,15 @@ func TestVerifC17Shellparse(t *testing.T) {
 		want []string
 		err  bool
 	}{
-		{`"a\b"`, []string{`a\b`}, false},           // backslash before a non-quote inside quotes stays
-		{`"a\\b"`, []string{`a\b`}, false},          // escaped backslash
-		{`"a\\\"b"`, []string{`a\"b`}, false},       // escaped backslash then escaped quote
-		{`'a\'`, []string{`a\`}, false},             // backslash literal in single quotes
-		{`"" ''`, []string{"", ""}, false},          // empty arguments
-		{"\"a\nb\"", []string{"a\nb"}, false},       // newline inside quotes
+		{`"a\b"`, []string{`a\b`}, false},     // backslash before a non-quote inside quotes stays
+		{`"a\\b"`, []string{`a\b`}, false},    // escaped backslash
+		{`"a\\\"b"`, []string{`a\"b`}, false}, // escaped backslash then escaped quote
+		{`'a\'`, []string{`a\`}, false},       // backslash literal in single quotes
+		{`"" ''`, []string{"", ""}, false},    // empty arguments
+		{"\"a\nb\"", []string{"a\nb"}, false}, // newline inside quotes
 		{`"$(x) {y}" '-'`, []string{"$(x) {y}", "-"}, false},
-		{`"abc\`, nil, true},                        // dangling escape
-		{`"abc\"`, nil, true},                       // escaped closing quote -> unterminated
+		{`"abc\`, nil, true},  // dangling escape
+		{`"abc\"`, nil, true}, // escaped closing quote -> unterminated
 		{`'abc`, nil, true},
 		{`a "b`, nil, true},
 	}
@@ -221,7 +227,7 @@ func TestVerifC17Shellparse(t *testing.T) {
 		}
 	}
 
-	total := vN(70000, 7000000)
+	total := vN(32000, 3200000)
 	c17spShards(total, 8, 171, func(r *rand.Rand, n int) {
 		for i := 0; i < n; i++ {
 			if i%4 == 3 {
